@@ -5,8 +5,15 @@ V = os.path.dirname(os.path.dirname(os.path.abspath(__file__)))
 sys.path.insert(0, os.path.join(V, "harness"))
 props = [json.loads(l) for l in open(os.path.join(V, "properties.jsonl"))]
 checks, na = [], []
+not_ready = set()
+nr = os.path.join(V, "tools", "not_ready.txt")
+if os.path.exists(nr):
+    not_ready = set(open(nr).read().split())
 for p in props:
     pid = p["id"]
+    if pid in not_ready:
+        na.append(dict(property_id=pid, reason="check under construction by a builder; not claimed until it is committed and passes on the unchanged tree"))
+        continue
     try:
         m = importlib.import_module("props." + pid)
     except Exception as e:
